@@ -171,6 +171,9 @@ where
             "force_merge::folder",
         );
 
+        #[cfg(feature = "search")]
+        let search = self.0.search_index().map(|index| index.search());
+
         let folder = self
             .0
             .folders_mut()
@@ -180,9 +183,18 @@ where
 
         // The vault was rebuilt from the new events so the
         // in-memory summary must follow its name and flags
+        // and the search index its secrets
         let summary = {
             let access_point = folder.access_point();
             let access_point = access_point.lock().await;
+
+            #[cfg(feature = "search")]
+            if let Some(search) = search {
+                let mut search = search.write().await;
+                search.remove_vault(folder_id);
+                search.add_folder(&access_point).await?;
+            }
+
             access_point.vault().summary().clone()
         };
         self.0.set_folder_name(folder_id, summary.name(), Internal)?;
